@@ -38,6 +38,14 @@ def generate(tier, rng):
         for ch in chunked(ent):
             cases.append(Case(mode='repl', stdin=gen.join([e[0] for e in ch]), limits=BIG,
                               meta=dict(gen='date-grid', expect=[e[1] for e in ch], sample=len(cases) < 1)))
+    # literal spellings: the documented dd/mm/yyyy form writes leading zeros; every field padded to 2-4 digits
+    ent = []
+    for (d, m, y) in [(8, 9, 2021), (9, 8, 2021), (1, 1, 2000), (10, 11, 2024), (7, 7, 777), (31, 12, 99), (29, 2, 2024), (30, 2, 2024), (5, 10, 8), (18, 9, 2019), (28, 2, 1900)] + \
+                     [(rng.randint(1, 31), rng.randint(1, 12), rng.randint(1, 2999)) for _ in range(40 if tier == 'quick' else 600)]:
+        for wd, wm, wy in ((2, 2, 4), (3, 3, 5), (2, 1, 1), (1, 2, 4), (4, 4, 6)):
+            ent.append(('%0*d/%0*d/%0*d' % (wd, d, wm, m, wy, y), (d, m, y)))
+    for ch in chunked(ent):
+        cases.append(Case(mode='repl', stdin=gen.join([e[0] for e in ch]), limits=BIG, meta=dict(gen='date-grid', expect=[e[1] for e in ch], sample=False)))
     # years sweep for fixed (d, m)
     ys = list(range(1, 10000)) if tier == 'thorough' else sorted(set([1, 2, 3, 4, 99, 100, 400, 1582, 1600, 1700, 1900, 2000, 2023, 2024, 2100, 9999] + [rng.randint(1, 9999) for _ in range(300)]))
     for (d, m) in [(29, 2), (31, 12), (1, 1)]:
